@@ -119,6 +119,40 @@ def run(ctx):
                                              ("knapsack", [3, 4, 5, 6, 3, 2, 4, 6], KnapsackProblem([4, 5, 6], [3, 2, 4], 6)),
                                              ("golomb", [4, 1], GolombProblem(4, True)), ("tsp", [3, 0, 2, 5, 2, 0, 4, 5, 4, 0], TSPProblem([[0, 2, 5], [2, 0, 4], [5, 4, 0]]))):
         reqs.append((f"example {extra_name} {nv.enc_ints(extra_args)}", posted_dump(from_problem(extra_p)), extra_name, extra_args))
+    # parameterised models on random parameters (asymmetric TSP matrices, knapsacks): the constructor's arrays vs the Lean model,
+    # and the optimum of the real solver vs brute force
+    for _ in range(6 if not thorough else 60):
+        n = rng.randint(3, 5)
+        rows = [[0 if i == j else rng.randint(1, 20) for j in range(n)] for i in range(n)]
+        tp = TSPProblem(rows)
+        tprob = from_problem(tp)
+        reqs.append((f"example tsp {nv.enc_ints([n] + [x for r in rows for x in r])}", posted_dump(tprob), "tsp", rows))
+        total = tp.shr_domain_nb - 1 if hasattr(tp, "shr_domain_nb") else len(tprob.shr) - 1
+        r = nv.impl_optimize(tprob, nv.Cfg(decision=list(range(n))), len(tprob.idx) - 1, True)
+        best = None
+        for perm in itertools.permutations(range(1, n)):
+            tour = (0,) + perm
+            c = sum(rows[tour[k]][tour[(k + 1) % n]] for k in range(n))
+            best = c if best is None or c < best else best
+        report.cov["evaluations"] += 1
+        report.nontrivial(("tsp", str(rows)))
+        got = None if r[1] is None else r[1][len(tprob.idx) - 1]
+        if r[0] != "ok" or got != best:
+            viol.append({"kind": "example", "model": "tsp", "args": rows, "detail": f"TSP optimum returned {got} ({r[0]}), brute force over all tours gives {best}"})
+        elif r[1] is not None and not v_circuit(n, r[1][:n]):
+            viol.append({"kind": "example", "model": "tsp", "args": rows, "detail": f"the returned successors {r[1][:n]} are not a Hamiltonian circuit"})
+        k = rng.randint(2, 5)
+        w = [rng.randint(1, 9) for _ in range(k)]
+        vol = [rng.randint(1, 6) for _ in range(k)]
+        cap = rng.randint(1, sum(vol))
+        kp2 = KnapsackProblem(w, vol, cap)
+        kprob = from_problem(kp2)
+        reqs.append((f"example knapsack {nv.enc_ints([k] + w + vol + [cap])}", posted_dump(kprob), "knapsack", [w, vol, cap]))
+        r = nv.impl_optimize(kprob, nv.Cfg(), kp2.weight, False)
+        bestk = max(sum(wi for wi, p_ in zip(w, pick) if p_) for pick in itertools.product((0, 1), repeat=k) if sum(vi for vi, p_ in zip(vol, pick) if p_) <= cap)
+        report.cov["evaluations"] += 1
+        if r[0] != "ok" or r[1] is None or r[1][kp2.weight] != bestk:
+            viol.append({"kind": "example", "model": "knapsack", "args": [w, vol, cap], "detail": f"optimum {None if r[1] is None else r[1][kp2.weight]} != brute force {bestk}"})
     answers = nv.Model().ask([q for q, _, _, _ in reqs])
     for (q, impl, name, args), ans in zip(reqs, answers):
         report.cov["evaluations"] += 1
